@@ -272,6 +272,74 @@ def classify_c04(case, model, why):
                 why="the real parser and the model's parser disagree on this text: " + why)
 
 
+def _c03_parts(s):
+    """'(c03 STATUS EVAL (log ...) SEM)' -> (status, eval outcome, log, sem outcome) as texts"""
+    try:
+        x = check_parse(s)
+        if isinstance(x, list) and x and x[0] == "c03" and len(x) == 5:
+            return tuple(check_unparse(y) for y in x[1:])
+    except Exception:
+        pass
+    return None
+
+
+def check_parse(s):
+    import check
+    return check.parse_sexp(s)
+
+
+def check_unparse(x):
+    import check
+    return check.unparse(x)
+
+
+def cmp_c03(td, imp, model, case):
+    if imp == model:
+        return None
+    m = _c03_parts(model)
+    i = _c03_parts(imp)
+    if m and i and m[0] == "typed" and "(err oracle)" in (m[1], m[3]) and m[2] == "(log)":
+        return None      # an uninterpreted library call inside the program: any non-crash outcome agrees
+    return "implementation, operational model and reference semantics do not all agree"
+
+
+def classify_c03(case, model, why):
+    m = _c03_parts(model)
+    i = _c03_parts(case[1])
+    if not m:
+        return dict(kind="no-failing-input-found", why="the model could not answer: " + model[:200])
+    if m[0] != "typed":
+        return dict(kind="no-failing-input-found",
+                    why="the generated term is outside what the theorem covers (" + m[0][:200] + "): generator/lowering out of step")
+    if not i:
+        return dict(kind="failing-input", why="execution did not return a value or an error: " + case[1][:100])
+    if i[1] != m[3]:
+        return dict(kind="failing-input", why=f"execution yields {i[1][:200]} but the reference semantics prescribe {m[3][:200]}")
+    return dict(kind="no-failing-input-found",
+                why=f"execution agrees with the reference semantics but the operational model says {m[1][:200]}: correspondence broken")
+
+
+PROPS["C03"] = dict(
+    streams=["C03"],
+    compare=cmp_c03,
+    classify=classify_c03,
+    gate_imports="From Coq Require Import String.\nFrom Cel.Model Require Import Spec.\nFrom Cel.Proofs Require Import EvalBase NoCrash SpecProofs.",
+    exhaustive=False,
+    rule="a case is a well-typed term of the core fragment generated as a tree (depth <= 6) from the typed grammar - "
+         "arithmetic on int/uint/double, comparison within and across numeric types, equality on containers, && || ! "
+         "?:, list/map literals, concatenation, index, in, field selection, has, size/contains/startsWith/endsWith/"
+         "string/bytes/double/int/uint/max/min in function and receiver style, all/exists/exists_one/map/filter with "
+         "iteration variables that shadow context names - with leaves from boundary-biased literals and the variables "
+         "of a generated context; the source text goes to the real parser and interpreter, the tree to the model, "
+         "which compiles the source itself, requires the parser's AST to be the lowering of the tree, type-checks "
+         "the tree and the environment, and answers with the operational model's outcome and the reference "
+         "semantics' outcome; all three must be equal; non-trivial when the term has >= 2 operators",
+    assumptions=["the typing discipline is Spec.type_of (booleans where the language branches, strings as receivers of "
+                 "startsWith/endsWith, typed iteration variables, 'any' for index / selection results); CEL-typable "
+                 "programs it rejects are compared with the operational model only (streams C02/evalmix)"],
+    release_too=True,
+)
+
 PROPS["C04"] = dict(
     streams=["C04"],
     compare=cmp_laws,
